@@ -782,7 +782,7 @@ impl WireDecoder {
         let mut j = json!({
             "ty": f.tyname(), "tyn": f.ty, "fl": f.flags, "sid": f.sid as i64, "len": f.payload.len(),
             "es": false, "eh": false, "ack": false, "bad": "",
-            "inc": 0, "ch": 0, "cl": 0, "last": 0, "dbg": 0, "dlen": 0, "pl": "",
+            "inc": 0, "ch": 0, "cl": 0, "last": 0, "dbg": 0, "dbgs": "", "dlen": 0, "pl": "",
             "prom": 0, "hb": false, "bes": false, "blen": 0, "bt": "", "pcls": [],
         });
         let p = &f.payload;
@@ -943,6 +943,11 @@ impl WireDecoder {
                     o.insert("ch".into(), json!(((p[4] as i64) << 8) | p[5] as i64));
                     o.insert("cl".into(), json!(((p[6] as i64) << 8) | p[7] as i64));
                     o.insert("dbg".into(), json!(p.len() - 8));
+                    // short printable debug data as text (h2 names the policy that made it give up)
+                    let d = &p[8..];
+                    if !d.is_empty() && d.len() <= 48 && d.iter().all(|b| b.is_ascii_graphic()) {
+                        o.insert("dbgs".into(), json!(String::from_utf8_lossy(d)));
+                    }
                 }
             }
             WINDOW_UPDATE => {
